@@ -63,8 +63,19 @@ pub fn wire(rec: &mut Recorder, rng: &mut Rng, thorough: bool) {
     }
     // refused ESIs
     for esi in [16777216u32, 16777217, u32::MAX, 1 << 31, (1 << 24) + 255] {
-        let r = guarded(move || hex(&PayloadId::new(3, esi).serialize()));
-        rec.put(&format!("pid new 3 {esi}"), &res(r));
+        let r = guarded(move || {
+            let p = PayloadId::new(3, esi);
+            let ser = p.serialize();
+            let d = PayloadId::deserialize(&ser);
+            (hex(&ser), d.encoding_symbol_id(), d == p)
+        });
+        // a value the constructor accepts is a representable value: it has to round-trip (the property's own oracle)
+        if let Ok((ser, back, same)) = &r {
+            if !*same {
+                rec.impl_violation(format!("PayloadId::new(3, {esi}) is accepted but does not round-trip: it serialises to {ser} and parses back as ESI {back}"));
+            }
+        }
+        rec.put(&format!("pid new 3 {esi}"), &res(r.map(|x| x.0)));
         rec.count("pid_refused");
     }
     // arbitrary 4-byte buffers: parse, re-serialise
